@@ -17,7 +17,8 @@ var tplSeq int64
 type Obs struct {
 	Out   []byte
 	Err   string // "" = nil error
-	Panic string // non-empty: recovered panic (+ whether a dyntpl frame is innermost)
+	Panic string // non-empty: recovered panic
+	Frame string // innermost non-runtime function of the panic
 	Hang  bool
 }
 
@@ -40,7 +41,9 @@ func guarded(timeout time.Duration, f func() ([]byte, error)) Obs {
 		var o Obs
 		defer func() {
 			if p := recover(); p != nil {
-				o.Panic = fmt.Sprintf("%v\n%s", p, trimStack(string(debug.Stack())))
+				st := string(debug.Stack())
+				o.Panic = fmt.Sprintf("%v\n%s", p, trimStack(st))
+				o.Frame = panicFrame(st)
 			}
 			ch <- o
 		}()
@@ -56,6 +59,35 @@ func guarded(timeout time.Duration, f func() ([]byte, error)) Obs {
 	case <-time.After(timeout):
 		return Obs{Hang: true}
 	}
+}
+
+// panicFrame: the innermost frame below the panic that is not in the Go runtime.
+func panicFrame(st string) string {
+	lines := strings.Split(st, "\n")
+	seenPanic := false
+	for _, l := range lines {
+		if strings.HasPrefix(l, "panic(") {
+			seenPanic = true
+			continue
+		}
+		if !seenPanic || strings.HasPrefix(l, "\t") || l == "" {
+			continue
+		}
+		fn := l
+		if i := strings.LastIndex(fn, "("); i > 0 {
+			fn = fn[:i]
+		}
+		if strings.HasPrefix(fn, "runtime.") || strings.HasPrefix(fn, "runtime/") {
+			continue
+		}
+		return fn
+	}
+	return ""
+}
+
+// InRepo: the panic was raised by dyntpl's own code (not by a library it calls).
+func (o Obs) InRepo() bool {
+	return strings.HasPrefix(o.Frame, "github.com/koykov/dyntpl.") || strings.HasPrefix(o.Frame, "github.com/koykov/dyntpl/")
 }
 
 func trimStack(s string) string {
